@@ -1307,6 +1307,19 @@ lyxml_dump_text(struct ly_out *out, const char *text, ly_bool attribute)
             /* not needed, just for readability */
             ret = ly_print_(out, "&gt;");
             break;
+        case '\r':
+            /* a literal CR would be normalized to LF by an XML parser (XML 1.0 sec. 2.11) */
+            ret = ly_print_(out, "&#xD;");
+            break;
+        case '\t':
+        case '\n':
+            if (attribute) {
+                /* literal white space in attribute values is normalized to a space (XML 1.0 sec. 3.3.3) */
+                ret = ly_print_(out, (text[u] == '\t') ? "&#x9;" : "&#xA;");
+            } else {
+                ret = ly_write_(out, &text[u], 1);
+            }
+            break;
         case '"':
             if (attribute) {
                 ret = ly_print_(out, "&quot;");
